@@ -16,7 +16,8 @@ IRT = ('req1', 'unknown', None)
 SCD_IRT = ('req1', 'req2', 'unknown', None)
 DEST = ('own', 'own-other-binding', 'foreign', 'suffix', 'prefix', None)
 AUD = {'none': (), 'me': ((SP_X,),), 'other': ((OTHER,),), 'me+other': ((SP_X, OTHER),),
-       'me|other': ((SP_X,), (OTHER,)), 'other|me': ((OTHER,), (SP_X,)), 'empty': ((),)}
+       'me|other': ((SP_X,), (OTHER,)), 'other|me': ((OTHER,), (SP_X,)), 'empty': ((),),
+       'substring': ((SP_X[:-2],),), 'superstring': ((SP_X + '/x',),), 'case': ((SP_X.upper(),),)}
 RECIP = ('own', 'entity', 'foreign', None)
 
 
@@ -57,9 +58,18 @@ def docs(thorough):
             for irt, sirt, d, a, r in itertools.product(IRT, SCD_IRT, DEST, AUD, RECIP):
                 if enc and not thorough and (d not in ('own', 'foreign') or a not in ('me', 'other', 'me|other') or r not in ('own', 'foreign')):
                     continue
+                if a in ('substring', 'superstring', 'case') and (d != 'own' or r != 'own' or sirt != 'req1'):
+                    continue
                 if binding != BINDING_HTTP_POST and (a not in ('me', 'other') or r != 'own'):
                     continue
                 out.append(dict(binding=binding, enc=enc, irt=irt, scd=[sirt], dest=d, aud=a, recip=r))
+            if not enc and binding == BINDING_HTTP_POST:
+                # non-initial state: the same SP has just handled a message over another binding
+                for b2 in (BINDING_HTTP_REDIRECT, BINDING_SOAP):
+                    for d in DEST:
+                        out.append(dict(binding=b2, enc=False, irt='req1', scd=['req1'], dest=d, aud='me', recip='own', prime=BINDING_HTTP_POST))
+                for d in DEST:
+                    out.append(dict(binding=BINDING_HTTP_POST, enc=False, irt='req1', scd=['req1'], dest=d, aud='me', recip='own', prime=BINDING_HTTP_REDIRECT))
             if thorough and not enc:
                 # two confirmations; a leading non-bearer / data-less confirmation
                 for irt, s1, s2 in itertools.product(IRT, SCD_IRT, SCD_IRT):
@@ -116,7 +126,16 @@ def evaluate(doc):
     xml = build(doc)
     out = []
     for allow, conv, regex in itertools.product((False, True), (False, True), (False, True)):
+        if doc.get('prime'):
+            _sp.pop((allow, regex), None)
         sp = sp_for(allow, regex)
+        if doc.get('prime'):
+            pd = dict(binding=doc['prime'], enc=False, irt='req1', scd=['req1'], dest='own', aud='me', recip='own')
+            first = oracle.accept_response(sp, build(pd), binding=doc['prime'], outstanding=OUTSTANDING)
+            _sp.pop((allow, regex), None)
+            if not first['accept']:
+                out.append({'allow': allow, 'conv': conv, 'regex': regex, 'accept': False, 'exc': 'PRIMING-REJECTED', 'why': [], 'came_from': None})
+                continue
         obs = oracle.accept_response(sp, xml, binding=doc['binding'], outstanding=OUTSTANDING,
                                      conv_info={'entity_id': SP_X} if conv else None)
         why = required_reject(doc, allow, conv, regex) if obs['accept'] else []
@@ -150,7 +169,7 @@ def run(ctx):
             for y in o['why']:
                 key = {'kind': y, 'allow_unsolicited': o['allow'], 'conv_info': o['conv'], 'regex': o['regex'], 'enc': doc['enc'],
                        'binding': doc['binding'].rsplit(':', 1)[1], 'irt': doc['irt'], 'scd': doc['scd'], 'dest': doc['dest'],
-                       'aud': doc['aud'], 'recip': doc['recip']}
+                       'aud': doc['aud'], 'recip': doc['recip'], 'primed_by': (doc.get('prime') or '').rsplit(':', 1)[-1] or None}
                 ctx.violation(key, {})
             if o['came_from']:
                 ctx.violation({'kind': o['came_from'], 'allow_unsolicited': o['allow'], 'irt': doc['irt'], 'scd': doc['scd'],
@@ -175,6 +194,8 @@ def replay(ctx, w):
     TMP[0] = ctx.tmp
     b = {'HTTP-POST': BINDING_HTTP_POST, 'HTTP-Redirect': BINDING_HTTP_REDIRECT, 'SOAP': BINDING_SOAP}[w['binding']]
     doc = dict(binding=b, enc=w['enc'], irt=w['irt'], scd=w['scd'], dest=w['dest'], aud=w['aud'], recip=w['recip'])
+    if w.get('primed_by'):
+        doc['prime'] = {'HTTP-POST': BINDING_HTTP_POST, 'HTTP-Redirect': BINDING_HTTP_REDIRECT, 'SOAP': BINDING_SOAP}[w['primed_by']]
     outs = evaluate(doc)
     for o in outs:
         if (o['allow'], o['conv'], o['regex']) == (w['allow_unsolicited'], w['conv_info'], w['regex']):
